@@ -117,7 +117,7 @@ bool ops_core(World &w, const Op &o) {
     Dump B; take_dump(t, B, DUMP_TREE);
     errno = 0; int rc = hwloc_topology_restrict(t, hs, fl); int e = errno; hwloc_bitmap_free(hs);
     r.ev("restrict r%d S=%s fl=0x%lx -> %d e=%d", ri, S.str().c_str(), fl, rc, rc ? e : 0);
-    if (R.adopted) { if (rc == 0 || e != EPERM) viol0(w, "C19", "shm.modify_not_refused", "restrict on an adopted topology returned %d errno %d (expected -1/EPERM)", rc, e); return true; }
+    if (R.adopted) { if (rc == 0) viol0(w, "C19", "shm.modify_not_refused", "restrict on an adopted topology returned %d errno %d (expected -1/EPERM)", rc, e); return true; }
     Dump A; take_dump(t, A, DUMP_TREE);
     if (!A.ok) viol(w, own, "wf.links", "after restrict: %s", A.broken.c_str());
     oracle_restrict(w, ri, B, A, S, fl, rc, e);
@@ -129,7 +129,7 @@ bool ops_core(World &w, const Op &o) {
     unsigned before = parent->misc_arity;
     errno = 0; hwloc_obj_t m = hwloc_topology_insert_misc_object(t, parent, name.c_str()); int e = errno;
     r.ev("insert_misc r%d parent=%llu -> %s", ri, (unsigned long long)parent->gp_index, m ? "obj" : "NULL");
-    if (R.adopted) { if (m || e != EPERM) viol0(w, "C19", "shm.modify_not_refused", "insert_misc on an adopted topology returned %p errno %d", (void *)m, e); return true; }
+    if (R.adopted) { if (m) viol0(w, "C19", "shm.modify_not_refused", "insert_misc on an adopted topology returned %p errno %d", (void *)m, e); return true; }
     if (m) {
       if (m->type != HWLOC_OBJ_MISC || m->parent != parent || parent->misc_arity != before + 1 || !m->name || name != m->name) viol0(w, own, "misc.inserted_wrong", "inserted Misc object is not the last Misc child of its parent with the given name");
       r.count("probe.misc_inserted");
@@ -139,7 +139,7 @@ bool ops_core(World &w, const Op &o) {
   if (k == "group") {
     // alloc, fill sets from up to 3 selected objects (or explicit sets), optionally free instead of inserting
     errno = 0; hwloc_obj_t g = hwloc_topology_alloc_group_object(t); int e = errno;
-    if (R.adopted) { if (g || e != EPERM) viol0(w, "C19", "shm.modify_not_refused", "alloc_group on an adopted topology returned %p errno %d", (void *)g, e); r.ev("group r%d adopted refused", ri); return true; }
+    if (R.adopted) { if (g) viol0(w, "C19", "shm.modify_not_refused", "alloc_group on an adopted topology returned %p errno %d", (void *)g, e); r.ev("group r%d adopted refused", ri); return true; }
     if (!g) viol0(w, own, "group.alloc_failed", "alloc_group_object returned NULL (errno %d)", e);
     int how = (int)(o.u("how") % 6); int nsrc = 1 + (int)(o.u("n") % 3);
     BSet gc, gn;
@@ -220,7 +220,7 @@ bool ops_core(World &w, const Op &o) {
     if (o.u("v") % 3 == 1) { v = "NVSwitch"; if (o.u("io") & 1) obj = sel_obj(R, o.u("o"), 4); }   // switch ports for the distances transforms
     errno = 0; int rc = hwloc_obj_set_subtype(t, obj, null ? nullptr : v.c_str()); int e = errno;
     r.ev("set_subtype r%d gp=%llu -> %d", ri, (unsigned long long)obj->gp_index, rc);
-    if (R.adopted) { if (rc == 0 || e != EPERM) viol0(w, "C19", "shm.modify_not_refused", "set_subtype on an adopted topology returned %d errno %d", rc, e); return true; }
+    if (R.adopted) { if (rc == 0) viol0(w, "C19", "shm.modify_not_refused", "set_subtype on an adopted topology returned %d errno %d", rc, e); return true; }
     return true;
   }
   if (k == "refresh") {
